@@ -215,6 +215,33 @@ fn color_domain(dom: &str, a: &[String]) -> String {
             }
             let _ = write!(o, "N={} C={:016x} T={:016x} O={:016x}", n, hc, ht, ho);
         }
+        "rgbscan" => {
+            // SEARCH AID, not an oracle: values (offset, offset+stride, …) whose OctColor is not at
+            // minimal squared distance among the crate's own palette, or whose Color / TriColor do
+            // not agree with each other on black-vs-not; the candidates are then judged one by one
+            // by the model's oracle through `rgbone`
+            let stride = num(&a[2]);
+            let mut v = num(&a[3]);
+            let pal: Vec<(i32, i32, i32)> = OCTS.iter().map(|c| { let (r, g, b) = c.rgb(); (r as i32, g as i32, b as i32) }).collect();
+            let mut found = 0;
+            while v < (1 << 24) && found < 48 {
+                let (r, g, b) = ((v >> 16) as u8, (v >> 8) as u8, v as u8);
+                let p = Rgb888::new(r, g, b);
+                let oc = OctColor::from(p);
+                let d = |q: (i32, i32, i32)| (q.0 - r as i32).pow(2) + (q.1 - g as i32).pow(2) + (q.2 - b as i32).pow(2);
+                let (cr, cg, cb) = oc.rgb();
+                let mine = d((cr as i32, cg as i32, cb as i32));
+                let best = pal.iter().map(|q| d(*q)).min().unwrap();
+                if mine > best {
+                    let _ = write!(o, "{}{}.{}.{}", if found == 0 { "CAND=" } else { ";" }, r, g, b);
+                    found += 1;
+                }
+                v += stride;
+            }
+            if found == 0 {
+                o.push_str("CAND=-");
+            }
+        }
         "rgbone" => {
             // single value, all conversions: depth r g b
             let (r, g, b) = (num(&a[3]) as u8, num(&a[4]) as u8, num(&a[5]) as u8);
